@@ -378,6 +378,12 @@ func genBinop(r *gen.Rand) exprCase {
 			e.Inner, e.Inner2 = a.Expr, a.Expr
 		}
 	}
+	if strings.HasPrefix(e.BinOp, "%") && (strings.Contains(e.Inner, "(") || strings.Contains(e.Inner2, "(")) {
+		// math.Mod is discontinuous in both arguments: with a COMPUTED operand (range function, aggregation) the last-bit
+		// noise between two correct engines can move the answer by a whole divisor. % is generated on stored sample
+		// values and literals only (exactly representable, so both engines must agree exactly).
+		e.BinOp = "*" + e.BinOp[1:]
+	}
 	e.Expr = fmt.Sprintf("%s %s %s", paren(e.Inner), e.BinOp, paren(e.Inner2))
 	return e
 }
